@@ -509,23 +509,39 @@ def dot(a, b):
 
 
 def linalg_inv(x):
-    _u("jnp.linalg.inv of a DIAGONAL matrix = reciprocal diagonal (off-diagonal must be zero: obligation)")
+    _u("jnp.linalg.inv of an n x n matrix, n <= 3 = adjugate / determinant (determinant != 0: division obligation)")
     X = const_arr(x)
-    if X.ndim != 2 or not isinstance(X.shape[0], int):
-        raise OutsideSubset("linalg.inv of non-matrix / symbolic size")
+    if X.ndim != 2 or not isinstance(X.shape[0], int) or X.shape[0] != X.shape[1] or X.shape[0] > 3 or X.kind == "complex":
+        raise OutsideSubset("linalg.inv of non-matrix / symbolic size / n > 3 / complex")
+    adj, det = adjugate_det([[smt.R(X.at_((i, j))) for j in range(X.shape[0])] for i in range(X.shape[0])])
     n = X.shape[0]
-    e = engine.cur()
-    for i in range(n):
-        for j in range(n):
-            if i != j:
-                e.prove(f"linalg.inv: off-diagonal [{i},{j}] is zero (diagonal case only)", smt.req(smt.R(X.at_((i, j))), 0), kind="requires")
+    rows = [[smt.rdiv(adj[i][j], det) for j in range(n)] for i in range(n)]
 
     def fn(idx):
         i, j = idx
         if isinstance(i, int) and isinstance(j, int):
-            return smt.rdiv(1, smt.R(X.at_((i, i)))) if i == j else 0
+            return rows[i][j]
         raise OutsideSubset("symbolic index into linalg.inv result")
     return SArr((n, n), fn, "real")
+
+
+def adjugate_det(m):
+    """adjugate and determinant of a 1x1 / 2x2 / 3x3 matrix of R-values (cofactor expansion)"""
+    n = len(m)
+    mul, sub, add = smt.rmul, smt.rsub, smt.radd
+    if n == 1:
+        return [[1]], m[0][0]
+    if n == 2:
+        (a, b), (c, d) = m
+        return [[d, smt.rneg(b)], [smt.rneg(c), a]], sub(mul(a, d), mul(b, c))
+
+    def minor(i, j):
+        r = [k for k in range(3) if k != i]
+        c = [k for k in range(3) if k != j]
+        return sub(mul(m[r[0]][c[0]], m[r[1]][c[1]]), mul(m[r[0]][c[1]], m[r[1]][c[0]]))
+    cof = [[minor(i, j) if (i + j) % 2 == 0 else smt.rneg(minor(i, j)) for j in range(3)] for i in range(3)]
+    det = add(add(mul(m[0][0], cof[0][0]), mul(m[0][1], cof[0][1])), mul(m[0][2], cof[0][2]))
+    return [[cof[j][i] for j in range(3)] for i in range(3)], det
 
 
 def repeat(a, repeats, axis=None):
